@@ -228,6 +228,8 @@ def bucket {κ ν : Type} [DecidableEq κ] (map : List (κ × List ν)) (k : κ)
   | [] => []
   | (k', ws) :: rest => if k' = k then ws else bucket rest k
 
+/-! ### `parallel_stats` before commit 1e0886f (kept for the regression theorem) -/
+namespace Old
 /-- `parallel_stats` over integer-valued doubles and NaN (`none`) -/
 abbrev FV := Option Int
 def fvLt (a b : FV) : Bool :=
@@ -271,6 +273,60 @@ def optMerge (g : FV → FV → FV) (a b : Option FV) : Option FV :=
 def statsM (a b : Stats) : Stats :=
   ⟨a.count + b.count, fvAdd a.sum b.sum, optMerge fvMin a.min b.min, optMerge fvMax a.max b.max⟩
 def parStats : Shape FV → Stats := foldReduce Stats.init statsF statsM
+end Old
+
+/-! ### `parallel_stats` (after commit 1e0886f: the fold step uses `f64::min`/`f64::max` like the
+reduce step) -/
+
+/-- an `f64` as far as `min`/`max`/`<` see it: `none` = NaN; `some (k, tag)` = the number `k`
+(integer-valued in the stream), `tag` tells apart values that compare equal but differ in bits
+(`+0.0` = `(0, 0)`, `-0.0` = `(0, 1)`). -/
+abbrev FB := Option KV
+
+/-- `f64::min`: a NaN operand is ignored; for operands that compare equal (`+0.0`/`-0.0`) the std
+documentation allows either one — `tieLeft` is the choice the compiled call makes. -/
+def fbMin (tieLeft : Bool) (a b : FB) : FB :=
+  match a, b with
+  | some x, some y => some (if x.1 < y.1 then x else if y.1 < x.1 then y else if tieLeft then x else y)
+  | none, b => b
+  | a, none => a
+def fbMax (tieLeft : Bool) (a b : FB) : FB :=
+  match a, b with
+  | some x, some y => some (if x.1 > y.1 then x else if y.1 > x.1 then y else if tieLeft then x else y)
+  | none, b => b
+  | a, none => a
+
+def fbNum : FB → Option Int
+  | some x => some x.1
+  | none => none
+def fsAdd (a b : Option Int) : Option Int :=
+  match a, b with
+  | some x, some y => some (x + y)
+  | _, _ => none
+
+structure Stats where
+  count : Nat
+  sum : Option Int          -- exact; NaN = none (the f64 rounding of sums is `parSumF`'s subject)
+  min : Option FB
+  max : Option FB
+  deriving DecidableEq, Repr
+
+def Stats.init : Stats := ⟨0, some 0, none, none⟩
+/-- fold step: `Some(min.map_or(val, |m| m.min(val)))`; `tF` = tie choice of these two calls -/
+def statsF (tF : Bool) (s : Stats) (v : FB) : Stats :=
+  ⟨s.count + 1, fsAdd s.sum (fbNum v),
+   some (match s.min with | some m => fbMin tF m v | none => v),
+   some (match s.max with | some m => fbMax tF m v | none => v)⟩
+def optMerge (g : FB → FB → FB) (a b : Option FB) : Option FB :=
+  match a, b with
+  | some x, some y => some (g x y)
+  | some v, none => some v
+  | none, some v => some v
+  | none, none => none
+/-- reduce step; `tR` = tie choice of its `a.min(b)` / `a.max(b)` calls -/
+def statsM (tR : Bool) (a b : Stats) : Stats :=
+  ⟨a.count + b.count, fsAdd a.sum b.sum, optMerge (fbMin tR) a.min b.min, optMerge (fbMax tR) a.max b.max⟩
+def parStats (tF tR : Bool) : Shape FB → Stats := foldReduce Stats.init (statsF tF) (statsM tR)
 
 /-! ## 3. scheduler -/
 
